@@ -1236,9 +1236,127 @@ def correspond_enum_decls(ctx, corr):
                                            what="enum E %s: %s" % (' '.join(toks), msg)))
 
 
+# ---------------------------------------------------------------------------
+# parameter lists with default values and packs: extracted params_x (Parse/ParamsX.v) vs the real _parse_parameters
+
+def real_params_x(strs):
+    toks = [impl.mk_tok(decl.tok_type(s), s) for s in strs]
+    p = impl.parser_over(toks)
+    try:
+        ps, va, at = p._parse_parameters(False)
+    except (impl.CxxParseError, EOFError):
+        return ('err',)
+    except (AssertionError, IndexError, KeyError, AttributeError, TypeError):
+        return ('other',)
+    out = []
+    for q in ps:
+        try:
+            t = decl.from_real(q.type)
+        except decl.Unrepresentable:
+            return ('other',)
+        out.append((t, q.name, q.param_pack, None if q.default is None else tuple(x.value for x in q.default.tokens)))
+    return ('ok', out, va, len(p.lex.tokbuf))
+
+
+def model_params_x(cases):
+    lines, nms = [], []
+    for toks in cases:
+        names = decl.Names()
+        lines.append([103] + decl.enc_tokens(toks, names))
+        nms.append(names)
+    res = []
+    for o, names in zip(run_driver(lines), nms):
+        if o[0] != 0:
+            res.append(('err', o[1]))
+            continue
+        rest, va, cnt = o[1], bool(o[2]), o[3]
+        i = 4
+        out = []
+        for _ in range(cnt):
+            pack = bool(o[i]); i += 1
+            if o[i] == 1:
+                name = names.rev.get(o[i + 1], '?'); i += 2
+            else:
+                name = None; i += 1
+            t, i = decl.dec_type(o, i, names)
+            if o[i] == 1:
+                n = o[i + 1]
+                dv = tuple(names.rev[o[i + 2 + 2 * j + 1]] if o[i + 2 + 2 * j + 1] else impl.TT[o[i + 2 + 2 * j]] for j in range(n))
+                i += 2 + 2 * n
+            else:
+                dv = None; i += 1
+            out.append((t, name, pack, dv))
+        res.append(('ok', out, va, rest))
+    return res
+
+
+PX_DEFAULTS = [['0'], ['nullptr'], ['1', '+', '2'], ['f', '(', '1', ',', '2', ')'], ['{', '}'], ['Foo', '{', '1', ',', '2', '}'], ['(', 'a', '>', 'b', ')'], ['A', '<', 'B', '>', '(', ')'],
+               ['sizeof', '(', 'X', ')'], ['x', '[', '3', ']'], ['-', '1'], ['"s"'], ['N', '::', 'k'], ['a', '?', 'b', ':', 'c']]
+PX_WORDS = ['Foo', 'Bar', 'T', 'void', 'const', 'volatile', '*', '&', '&&', '(', ')', '[', ']', ',', '...', '=', '3', 'x', 'y', 'final', 'auto', 'int', '<', '>']
+
+
+def gen_params_x(rng):
+    n = rng.choice([0, 1, 1, 2, 3, 4])
+    toks, exp = [], []
+    for i in range(n):
+        if i:
+            toks.append(',')
+        while True:
+            t = decl.rand_type(rng, rng.choice([0, 1, 2, 3]))
+            if decl.legal(t) and decl.var_ok(t) and decl.kind(t) != 'F' and not (n == 1 and decl.is_void(t)):
+                break
+        name = rng.choice([None, 'a%d' % i, 'a%d' % i])
+        dv = tuple(rng.choice(PX_DEFAULTS)) if rng.random() < 0.4 else None
+        toks += decl.print_decl(t, name) + ((['='] + list(dv)) if dv else [])
+        exp.append((t, name, False, dv))
+    va = rng.random() < 0.2
+    if va:
+        toks += ([','] if n else []) + ['...']
+    toks += [')'] + rng.choice([[], [';'], ['const', ';'], ['{', '}']])
+    return toks, (exp, va)
+
+
+def params_x_msg(m, r):
+    if r[0] == 'other' or m == ('err', 4):
+        return None
+    if m[0] == 'err' and m[1] == 9:
+        return "model ran out of budget"
+    if (m[0] == 'ok') != (r[0] == 'ok'):
+        return "model %s, implementation %s" % (m[:2], r[:2])
+    if m[0] == 'ok' and m != r:
+        return "model %s, implementation %s" % (m, r)
+    return None
+
+
+def correspond_params_x(ctx, corr):
+    rng = ctx.rng
+    cases = []
+    for _ in range(ctx.scale(800, 18000)):
+        toks, exp = gen_params_x(rng)
+        cases.append((toks, exp, 'params-valid'))
+        if rng.random() < 0.6:
+            mt = c02.mutate(rng, toks) or [')']
+            if rng.random() < 0.3:
+                mt = [rng.choice(PX_WORDS) for _ in range(rng.choice([1, 2, 3, 5, 8]))]
+            cases.append((mt, None, 'params-mutated'))
+    ms = model_params_x([c[0] for c in cases])
+    for (toks, exp, kind), m in zip(cases, ms):
+        corr.cases += 1
+        r = real_params_x(toks)
+        k = kind + ":" + (m[0] if m[0] == 'ok' else 'err%d' % m[1]) + "/" + r[0]
+        corr.dist[k] = corr.dist.get(k, 0) + 1
+        msg = params_x_msg(m, r)
+        if msg is None and exp is not None and (m[0] != 'ok' or (m[1], m[2]) != exp):
+            msg = "model does not decode the printed parameter list: %s" % (m,)
+        if msg:
+            corr.disagreements.append(dict(case=dict(kind='corr-paramsx', tokens=toks), model=str(m)[:300], impl=str(r)[:300],
+                                           what="parameter list `( %s`: %s" % (' '.join(toks), msg)))
+
+
 def correspond(ctx):
     corr = Corr()
     rng = ctx.rng
+    correspond_params_x(ctx, corr)
     correspond_using(ctx, corr)
     correspond_enum_decls(ctx, corr)
     correspond_tparams(ctx, corr)
@@ -1431,6 +1549,9 @@ def replay(ctx, case):
         m = model_using([(case["tokens"], case["in_class"], case["has_template"])])[0]
         msg = using_msg(m, real_using(case["tokens"], case["in_class"], case["has_template"]))
         return ["using statement: " + msg] if msg else []
+    if k == 'corr-paramsx':
+        msg = params_x_msg(model_params_x([case["tokens"]])[0], real_params_x(case["tokens"]))
+        return ["parameter list: " + msg] if msg else []
     if k == 'corr-enumdecl':
         m = model_enum_decls([(case["tokens"], case["is_typedef"])])[0]
         msg = enum_decl_msg(m, real_enum_decl(case["tokens"], case["is_typedef"]))
